@@ -34,6 +34,8 @@ FlagsBad(o) ==
   (IF o.dense = (In.k = 0) /\ o.isdense = o.dense THEN {} ELSE {"dense-flag"}) \cup
   (IF o.islinear = (In.meth.name = "linear") THEN {} ELSE {"is-linear"}) \cup
   (IF o.size = NN THEN {} ELSE {"size"}) \cup
+  \* records shifted by an offset: only for the shift-invariant Gaussian kernel (the relation uses the un-shifted points)
+  (IF In.off = 0 \/ In.meth.name = "gauss" THEN {} ELSE {"unsafe-case"}) \cup
   (IF o.dup = 0 THEN {} ELSE {"csr-entries"}) \cup
   (IF o.bad = 0 THEN {} ELSE {"non-finite-value"}) \cup
   (IF o.ft \in {"f64", "f32"} THEN {} ELSE {"float-type"}) \cup
